@@ -9,8 +9,10 @@
    Specification (what the server computes): [murmur3_spec] = Cassandra's
    MurmurHash.hash3_x64_128 (seed 0, first long), [j_normalize], [cdc_token_spec],
    [spec_serialized_key], [spec_components], [spec_token]. *)
-From SV Require Import Base.Prelude Base.Bytes Model.Murmur Model.PartKey Model.PartName.
-From SV Require Import Proofs.Murmur_proofs Proofs.PartKey_proofs Proofs.PartName_proofs.
+From SV Require Import Base.Prelude Base.Bytes Model.Cql Model.Shard Model.Murmur Model.PartKey Model.PartName
+  Model.PartKeyTyped.
+From SV Require Import Proofs.Murmur_proofs Proofs.PartKey_proofs Proofs.PartName_proofs
+  Proofs.TokenRing_proofs Proofs.PartKeyTyped_proofs.
 Open Scope N_scope.
 
 (* ---- the streaming hashers ------------------------------------------------------------- *)
@@ -80,45 +82,47 @@ Theorem C03_token_range : forall key : bytes,
   (- 2 ^ 63 < murmur3_token_spec key < 2 ^ 63)%Z.
 Proof. exact murmur3_token_range. Qed.
 
-(* ---- partition key extraction ---------------------------------------------------------- *)
+(* ---- partition key extraction ----------------------------------------------------------
+   [chk] = the build's overflow-checks setting (true: debug, u16 overflow panics; false: release,
+   it wraps): inside the quantifier the theorems hold for both. *)
 
 (* whatever the order of the bind markers and whatever is bound to the other markers, slot j
    of the partition key receives the value bound to the marker announced as pk index j *)
-Theorem C03_pk_order : forall ncols (wire : list N) (values : list raw_value),
+Theorem C03_pk_order : forall chk ncols (wire : list N) (values : list raw_value),
   NoDup wire ->
   (forall i, In i wire -> (N.to_nat i < length values)%nat /\ (N.to_nat i < ncols)%nat) ->
   N.of_nat (length values) <= 65535 ->
-  pk_new ncols wire values = Ok (map (fun i => as_value (nth (N.to_nat i) values RNull)) wire).
+  pk_new chk ncols wire values = Ok (map (fun i => as_value (nth (N.to_nat i) values RNull)) wire).
 Proof. exact pk_new_order. Qed.
 
 (* compute_partition_key is the serialized partition key of the specification *)
-Theorem C03_partition_key : forall ncols wire values,
+Theorem C03_partition_key : forall chk ncols wire values,
   key_ok ncols wire values ->
   (length wire = 1%nat \/ Forall fits (spec_components wire values)) ->
-  ps_compute_partition_key ncols wire values =
+  ps_compute_partition_key chk ncols wire values =
   Ok (spec_serialized_key (spec_components wire values)).
 Proof. exact ps_compute_partition_key_spec. Qed.
 
 (* calculate_token is the partitioner's token of the serialized partition key, the components
    taken in partition-key order *)
-Theorem C03_token : forall p ncols wire values,
+Theorem C03_token : forall chk p ncols wire values,
   wire <> [] -> key_ok ncols wire values ->
   (length wire = 1%nat \/ Forall fits (spec_components wire values)) ->
   (Z.of_nat (length (spec_serialized_key (spec_components wire values))) < 2 ^ 63)%Z ->
-  ps_calculate_token p ncols wire values = Ok (Some (spec_token p wire values)).
+  ps_calculate_token chk p ncols wire values = Ok (Some (spec_token p wire values)).
 Proof. exact ps_calculate_token_spec. Qed.
 
 (* a component of a composite key that does not fit the 2-byte length is refused, never
    truncated; and that is the only error inside the quantifier *)
-Theorem C03_too_long : forall p ncols wire values,
+Theorem C03_too_long : forall chk p ncols wire values,
   key_ok ncols wire values -> (1 < length wire)%nat ->
   Exists (fun c => 65535 < N.of_nat (length c)) (spec_components wire values) ->
-  exists n, ps_calculate_token p ncols wire values = Err (ValueTooLong n) /\ 65535 < n /\
+  exists n, ps_calculate_token chk p ncols wire values = Err (ValueTooLong n) /\ 65535 < n /\
             In n (map (fun c => N.of_nat (length c)) (spec_components wire values)).
 Proof. exact ps_calculate_token_too_long. Qed.
 
-Theorem C03_errors : forall p ncols wire values e,
-  key_ok ncols wire values -> ps_calculate_token p ncols wire values = Err e ->
+Theorem C03_errors : forall chk p ncols wire values e,
+  key_ok ncols wire values -> ps_calculate_token chk p ncols wire values = Err e ->
   exists n, e = ValueTooLong n /\ 65535 < n.
 Proof. exact ps_calculate_token_errors. Qed.
 
@@ -138,13 +142,76 @@ Proof. exact feed_chunk_independent. Qed.
 
 (* ... nor on where the key markers stand in the statement: two statements / bindings with
    the same key components in partition-key order get the same token *)
-Theorem C03_marker_order : forall p ncols1 wire1 values1 ncols2 wire2 values2,
+Theorem C03_marker_order : forall chk p ncols1 wire1 values1 ncols2 wire2 values2,
   wire1 <> [] -> key_ok ncols1 wire1 values1 -> key_ok ncols2 wire2 values2 ->
   spec_components wire1 values1 = spec_components wire2 values2 ->
   (length wire1 = 1%nat \/ Forall fits (spec_components wire1 values1)) ->
   (Z.of_nat (length (spec_serialized_key (spec_components wire1 values1))) < 2 ^ 63)%Z ->
-  ps_calculate_token p ncols1 wire1 values1 = ps_calculate_token p ncols2 wire2 values2.
+  ps_calculate_token chk p ncols1 wire1 values1 = ps_calculate_token chk p ncols2 wire2 values2.
 Proof. exact marker_order_irrelevant. Qed.
+
+(* ---- from the metadata rows to the hasher (fetching.rs, Session::prepare) --------------- *)
+(* "tables using the CDC partitioner get the CDC token": when the (last) scylla_tables row of the
+   statement's table names a class ending in CDCPartitioner, the prepared statement hashes with
+   the CDC hasher, for every chunking of the key *)
+Theorem C03_cdc_table_chain : forall rows ks t name (chunks : list bytes),
+  partitioners_get rows ks t None = Some (Some name) -> ends_with name cdc_suffix = true ->
+  feed (prepared_partitioner (Some rows) true (Some (ks, t))) chunks = cdc_token_spec (concat chunks).
+Proof. exact cdc_table_chain. Qed.
+
+Theorem C03_murmur3_table_chain : forall rows ks t name (chunks : list bytes),
+  partitioners_get rows ks t None = Some (Some name) -> ends_with name murmur3_suffix = true ->
+  (Z.of_nat (length (concat chunks)) < 2 ^ 63)%Z ->
+  feed (prepared_partitioner (Some rows) true (Some (ks, t))) chunks = murmur3_token_spec (concat chunks).
+Proof. exact murmur3_table_chain. Qed.
+
+(* ---- typed values (serialize_values + C01's encoder) ----------------------------------- *)
+(* the typed calculate_token / compute_partition_key are the token / serialized key of the
+   serialized row ... *)
+Theorem C03_token_typed : forall chk p cols wire cells raws,
+  typed_row cols cells = Some raws ->
+  wire <> [] -> key_ok (length cols) wire raws ->
+  (length wire = 1%nat \/ Forall fits (spec_components wire raws)) ->
+  (Z.of_nat (length (spec_serialized_key (spec_components wire raws))) < 2 ^ 63)%Z ->
+  ps_calculate_token_typed chk p cols wire cells = Ok (Some (spec_token p wire raws)) /\
+  ps_compute_partition_key_typed chk cols wire cells =
+    Ok (spec_serialized_key (spec_components wire raws)).
+Proof. exact typed_token_spec. Qed.
+
+(* ... whose key components are the protocol encodings (C01's Enc) of the bound values *)
+Theorem C03_typed_components : forall cols wire cells raws,
+  typed_row cols cells = Some raws ->
+  (forall i, In i wire -> (N.to_nat i < length cols)%nat /\
+     exists v, nth (N.to_nat i) cells CNull = CVal v /\
+               wf_type (nth (N.to_nat i) cols (TNative NBlob)) = true /\
+               wf_val (nth (N.to_nat i) cols (TNative NBlob)) v = true /\
+               vector_hole (nth (N.to_nat i) cols (TNative NBlob)) v = false) ->
+  typed_components_ok cols wire cells (spec_components wire raws).
+Proof. exact typed_components_enc. Qed.
+
+(* ---- the token ring side (with C11's sharder) ------------------------------------------ *)
+(* every specified token is an i64, i.e. inside the domain of Sharder::shard_of *)
+Theorem C03_token_i64 : forall p (key : bytes), bytes_ok key ->
+  (- 2 ^ 63 <= token_spec p key < 2 ^ 63)%Z.
+Proof. exact token_spec_range. Qed.
+
+(* never i64::MIN, except the CDC token of a key shorter than 8 bytes (Token::INVALID) *)
+Theorem C03_token_not_min : forall p (key : bytes), bytes_ok key ->
+  (p = PCdc -> (8 <= length key)%nat) -> token_spec p key <> (- 2 ^ 63)%Z.
+Proof. exact token_spec_not_min. Qed.
+
+(* `token.value as u64` in shard_of is exact on a token *)
+Theorem C03_token_as_u64 : forall p (key : bytes), bytes_ok key ->
+  Z.of_N (i64_as_u64 (token_spec p key)) =
+  (if token_spec p key <? 0 then token_spec p key + 2 ^ 64 else token_spec p key)%Z.
+Proof. exact token_as_u64_exact. Qed.
+
+(* the shard computed from a hashed key is ScyllaDB's shard of the specified token *)
+Theorem C03_token_shard : forall p (chunks : list bytes) n msb,
+  (Z.of_nat (length (concat chunks)) < 2 ^ 63)%Z -> 0 < n ->
+  shard_of n msb (feed p chunks) = spec_shard_of n msb (token_spec p (concat chunks)) /\
+  shard_of n msb (feed p chunks) < n.
+Proof. exact feed_shard. Qed.
 
 (* the executable predicates evaluated by the correspondence driver on the implementation's
    outputs: [key_okb] decides the quantifier exactly, and the model itself always satisfies
@@ -153,9 +220,9 @@ Theorem C03_key_okb_iff : forall ncols wire values,
   key_okb ncols wire values = true <-> key_ok ncols wire values.
 Proof. exact key_okb_iff. Qed.
 
-Theorem C03_prop_model : forall p ncols wire values,
+Theorem C03_prop_model : forall chk p ncols wire values,
   (Z.of_nat (length (spec_serialized_key (spec_components wire values))) < 2 ^ 63)%Z ->
-  prop_token_ok p ncols wire values (ps_calculate_token p ncols wire values) = true.
+  prop_token_ok p ncols wire values (ps_calculate_token chk p ncols wire values) = true.
 Proof. exact prop_token_model. Qed.
 
 Theorem C03_prop_pk_model : forall p values,
@@ -273,20 +340,20 @@ Definition ex_values : list raw_value :=
 Example C03_ex_key_ok : key_ok 5 ex_wire ex_values.
 Proof. apply key_okb_sound. vm_compute. reflexivity. Qed.
 Example C03_ex_key :
-  pk_new 5 ex_wire ex_values =
+  pk_new true 5 ex_wire ex_values =
     Ok [Some [1; 2; 3; 4; 5]; Some [67]; Some [0; 0; 0; 0; 0; 0; 0; 89]] /\
-  ps_compute_partition_key 5 ex_wire ex_values =
+  ps_compute_partition_key false 5 ex_wire ex_values =
     Ok [0; 5; 1; 2; 3; 4; 5; 0; 0; 1; 67; 0; 0; 8; 0; 0; 0; 0; 0; 0; 0; 89; 0] /\
-  ps_calculate_token PMurmur3 5 ex_wire ex_values = Ok (Some (spec_token PMurmur3 ex_wire ex_values)) /\
+  ps_calculate_token true PMurmur3 5 ex_wire ex_values = Ok (Some (spec_token PMurmur3 ex_wire ex_values)) /\
   spec_token PMurmur3 ex_wire ex_values = (-2929013484768013632)%Z.
 Proof. repeat split; vm_compute; reflexivity. Qed.
 
 (* the same key bound through a statement whose markers stand elsewhere *)
 Example C03_ex_marker_order :
   key_ok 3 [0; 2; 1] [RValue [1; 2; 3; 4; 5]; RValue [0; 0; 0; 0; 0; 0; 0; 89]; RValue [67]] /\
-  ps_calculate_token PMurmur3 3 [0; 2; 1]
+  ps_calculate_token false PMurmur3 3 [0; 2; 1]
     [RValue [1; 2; 3; 4; 5]; RValue [0; 0; 0; 0; 0; 0; 0; 89]; RValue [67]]
-  = ps_calculate_token PMurmur3 5 ex_wire ex_values.
+  = ps_calculate_token true PMurmur3 5 ex_wire ex_values.
 Proof. split; [apply key_okb_sound|]; vm_compute; reflexivity. Qed.
 
 (* the serialized key and the property predicates on concrete inputs, rejecting ones included *)
@@ -322,9 +389,50 @@ Example C03_ex_prop_rejects :
     (Err (ValueTooLong 65536)) = true.
 Proof. repeat split; vm_compute; reflexivity. Qed.
 
+(* outside the quantifier the two build modes differ: a duplicate pk index panics with overflow
+   checks and yields NoPkIndexValue without *)
+Example C03_ex_build_modes :
+  pk_new true 2 [1; 1] [RValue [1]; RValue [2]] = Err RustPanic /\
+  pk_new false 2 [1; 1] [RValue [1]; RValue [2]] = Err (NoPkIndexValue 1 2) /\
+  pk_new true 2 [1; 0] [RValue [1]; RValue [2]] = pk_new false 2 [1; 0] [RValue [1]; RValue [2]].
+Proof. repeat split; vm_compute; reflexivity. Qed.
+
+(* the metadata chain on concrete rows: last row wins, null / missing row / unknown table /
+   no scylla_tables give Murmur3 *)
+Example C03_ex_chain :
+  prepared_partitioner (Some ex_rows) true (Some (ex_ks, ex_log)) = PCdc /\
+  prepared_partitioner (Some ex_rows) true (Some (ex_other, ex_log)) = PMurmur3 /\
+  prepared_partitioner (Some ex_rows) true (Some (ex_ks, ex_t)) = PMurmur3 /\
+  prepared_partitioner (Some ex_rows) true (Some (ex_ks, ex_u)) = PMurmur3 /\
+  prepared_partitioner (Some ex_rows) false (Some (ex_ks, ex_log)) = PMurmur3 /\
+  prepared_partitioner None true (Some (ex_ks, ex_log)) = PMurmur3 /\
+  prepared_partitioner (Some ex_rows) true None = PMurmur3 /\
+  partitioners_get ex_rows ex_ks ex_log None = Some (Some cdc_class).
+Proof. repeat split; vm_compute; reflexivity. Qed.
+
+(* a typed composite key (int, text) bound through markers in reverse order *)
+Example C03_ex_typed :
+  typed_row [TNative NText; TNative NInt] [CVal (CText [0x61; 0x62]); CVal (CInt (-2))]
+    = Some [RValue [0x61; 0x62]; RValue [255; 255; 255; 254]] /\
+  ps_compute_partition_key_typed true [TNative NText; TNative NInt] [1; 0]
+    [CVal (CText [0x61; 0x62]); CVal (CInt (-2))]
+    = Ok [0; 4; 255; 255; 255; 254; 0; 0; 2; 0x61; 0x62; 0] /\
+  ps_calculate_token_typed true PMurmur3 [TNative NText; TNative NInt] [1; 0]
+    [CVal (CText [0x61; 0x62]); CVal (CBigInt 5)] = Err TSerialization /\
+  ps_calculate_token_typed true PMurmur3 [TNative NText; TNative NInt] [1; 0]
+    [CVal (CText [0x61; 0x62])] = Err TSerialization.
+Proof. repeat split; vm_compute; reflexivity. Qed.
+
+(* tokens at the edge of the sharder's domain *)
+Example C03_ex_ring :
+  token_spec PCdc [0x80; 0; 0; 0; 0; 0; 0; 0] = (2 ^ 63 - 1)%Z /\
+  shard_of 7 12 (token_spec PCdc [0x80; 0; 0; 0; 0; 0; 0; 0]) = shard_of 7 12 (2 ^ 63 - 1)%Z /\
+  token_spec PCdc [1; 2] = (- 2 ^ 63)%Z /\ shard_of 7 0 (token_spec PCdc [1; 2]) = 0.
+Proof. repeat split; vm_compute; reflexivity. Qed.
+
 (* an over-long component of a composite key is refused *)
 Example C03_ex_too_long :
-  ps_calculate_token PMurmur3 2 [1; 0] [RValue [1]; RValue (repeat 0 (N.to_nat 65536))]
+  ps_calculate_token true PMurmur3 2 [1; 0] [RValue [1]; RValue (repeat 0 (N.to_nat 65536))]
   = Err (ValueTooLong 65536).
 Proof. vm_compute. reflexivity. Qed.
 
@@ -347,6 +455,14 @@ Print Assumptions C03_errors.
 Print Assumptions C03_token_preserialized.
 Print Assumptions C03_chunk_independent.
 Print Assumptions C03_marker_order.
+Print Assumptions C03_cdc_table_chain.
+Print Assumptions C03_murmur3_table_chain.
+Print Assumptions C03_token_typed.
+Print Assumptions C03_typed_components.
+Print Assumptions C03_token_i64.
+Print Assumptions C03_token_not_min.
+Print Assumptions C03_token_as_u64.
+Print Assumptions C03_token_shard.
 Print Assumptions C03_key_okb_iff.
 Print Assumptions C03_prop_model.
 Print Assumptions C03_prop_pk_model.
